@@ -192,7 +192,25 @@ func runSenderWorld(r *h.Report, d *h.Driver, ops []string, base int) {
 				hd.AddressSource = h.FA("dev1", []uint{1}, 3)
 				hd.AddressDestination = sw.lfs[2].Address()
 			}
-			pan := sw.inject(model.DatagramType{Header: hd, Payload: model.PayloadType{Cmd: []model.CmdType{cmd}}})
+			cmds := []model.CmdType{cmd}
+			// faults: the response references the counter but its processing fails
+			if len(f) > 3 {
+				switch f[3] {
+				case "nosrc": // source feature the peer never announced
+					hd.AddressSource = h.FA("dev1", []uint{1}, 9)
+				case "noent": // source entity the peer never announced
+					hd.AddressSource = h.FA("dev1", []uint{7}, 1)
+				case "nodst": // destination feature does not exist
+					hd.AddressDestination = h.FA("HEMS", []uint{1}, 77)
+				case "nofn": // a function the addressed feature does not know
+					if cls != model.CmdClassifierTypeResult {
+						cmds = []model.CmdType{{HvacOverrunListData: &model.HvacOverrunListDataType{}}}
+					}
+				case "nocmd":
+					cmds = []model.CmdType{}
+				}
+			}
+			pan := sw.inject(model.DatagramType{Header: hd, Payload: model.PayloadType{Cmd: cmds}})
 			done = append(done, op)
 			h.Settle(base)
 			if pan != nil {
@@ -214,6 +232,9 @@ func runSenderWorld(r *h.Report, d *h.Driver, ops []string, base int) {
 					kind = "in:" + f[1] + ":hit"
 				} else {
 					kind = "in:" + f[1] + ":miss"
+				}
+				if len(f) > 3 {
+					kind += ":fault"
 				}
 			}
 			ws := sw.wire()
@@ -264,7 +285,11 @@ func genSenderWorld(rng interface{ Intn(int) int }, n int) []string {
 			if cls != "notify" || rng.Intn(3) == 0 {
 				ref = strconv.Itoa(1 + rng.Intn(issued+2))
 			}
-			ops = append(ops, fmt.Sprintf("in %s %s", cls, ref))
+			op := fmt.Sprintf("in %s %s", cls, ref)
+			if ref != "-" && rng.Intn(4) == 0 {
+				op += " " + []string{"nosrc", "noent", "nodst", "nofn", "nocmd"}[rng.Intn(5)]
+			}
+			ops = append(ops, op)
 		default:
 			ops = append(ops, "in read -")
 			issued++
@@ -284,6 +309,10 @@ func TestSenderWorld(t *testing.T) {
 		return
 	}
 	runSenderWorld(r, d, []string{"rrd 0 0 0", "rrd 0 0 0", "rrd 0 1 0", "in reply 1", "rrd 0 0 0", "in result 2", "rrd 0 1 0", "in read -", "rrd 0 0 1"}, base)
+	for _, fault := range []string{"nosrc", "noent", "nodst", "nofn", "nocmd"} {
+		// a response whose processing fails still answers the request: the next identical request is sent
+		runSenderWorld(r, d, []string{"rrd 0 0 0", "rrd 0 0 0", "in reply 4 " + fault, "rrd 0 0 0", "in result 5 " + fault, "rrd 0 0 0"}, base)
+	}
 	rng := h.Rng(1313)
 	for i := 0; i < h.Scale(120, 1200); i++ {
 		runSenderWorld(r, d, genSenderWorld(rng, 20+rng.Intn(60)), base)
